@@ -198,8 +198,16 @@ def _endorsement_parse(run, PV, DA, gd, gg, se, gs):
              "message = u8(ROLE.DEVICE) | header | key, signature, all hex. SETUP_ENDO answers key(65) | signature: pubkey = R[:65], signature = R[65:], message = "
              "u8(ROLE.ENDORSEMENT) | pubkey; the scheme is sent as SETUP_ENDO | scheme | 0 | 0 and acknowledged with SETUP_ENDO_ACK | 0 | 0 | len(cert) | cert.")
 
-    def C(t):
-        return _strip(compose_slices(t))
+    def C(t, fn=None):
+        if fn is not None:
+            try:
+                t = norm(fold_consts(P, ast.parse(t, mode="eval").body, fn, DA, locals_=set(PV.defs(fn, DA)) | set(fn.params)))
+            except (SyntaxError, AnalysisError, Unknown):
+                pass
+        t = _strip(compose_slices(t))
+        if "REPEAT(" in t:
+            raise AnalysisError("endorsement answer taken apart in a loop: idiom not understood (UNDECIDED)")
+        return t
     for fn, g, kind in ((gd, gg, "device"), (se, gs, "endorsement")):
         sends = send_sites(run, fn)
         L = Layout(lambda e, fn=fn: try_fold(P, e, fn, DA))
@@ -253,9 +261,15 @@ def _endorsement_parse(run, PV, DA, gd, gg, se, gs):
                 if cp is None:
                     return None
                 l, op, r = cp
-                if op in ("in", "not in") and norm(l) == sch and isinstance(r, (ast.List, ast.Tuple, ast.Set)) \
-                        and all(isinstance(x, ast.Constant) for x in r.elts) and {x.value for x in r.elts} == {1, 2}:
-                    return ("SCHEME", op == "in")
+                if op in ("in", "not in") and norm(l) == sch:
+                    if isinstance(r, (ast.List, ast.Tuple, ast.Set)) and all(isinstance(x, ast.Constant) for x in r.elts):
+                        vals_ = {x.value for x in r.elts}
+                    else:
+                        okr_, rv_ = try_fold(P, r, fn, DA)
+                        rv_ = unwrap(rv_) if okr_ else None
+                        vals_ = set(rv_) if isinstance(rv_, (tuple, list, set, frozenset)) else None
+                    if vals_ == {1, 2}:
+                        return ("SCHEME", op == "in")
                 return None
             for lf in Walker(A, fn, DA, satom, max_leaves=32).walk(g.entry):
                 unknown = sorted(k[1:] for k in lf.pc if isinstance(k, str) and k.startswith("?"))
@@ -266,8 +280,8 @@ def _endorsement_parse(run, PV, DA, gd, gg, se, gs):
                                   "scheme 2: refusing it leaves the device without an attestation key)")
         for rn in g.nodes_of(rets[0]):
             for key in ("pubkey", "message", "signature"):
-                got = {C(x) for x in PV.expand_consistent(fn, DA, d[key], rn)}
-                run.check("R2t", got == {want[key]}, f"{fn.name}: {key} is the right part of the answer", key=f"{fn.name}|{key}", where=fn.loc(rets[0]),
+                got = {C(x, fn) for x in PV.expand_consistent(fn, DA, d[key], rn)}
+                run.check("R2t", got == {C(want[key], fn)}, f"{fn.name}: {key} is the right part of the answer", key=f"{fn.name}|{key}", where=fn.loc(rets[0]),
                           message=f"{fn.name} returns {key} = `{sorted(got)[0][:160] if got else None}`; expected `{want[key][:160]}`: the {kind} certificate element would hold "
                                   "bytes the device did not sign (or not all of them) and its signature would not verify")
 
@@ -380,7 +394,8 @@ def _ui_pages(run, PV, D, ua, g, uo):
     state["W"] = W
     n_cases = 0
     acc_names = set()
-    for lf in W.walk(t_edges[0], stops={head}):
+    # one iteration, starting at the loop's own test (`while n != MAX:` is the limit test; `while True:` is no test)
+    for lf in W.walk(head, stops={head}):
         unknown = sorted(k[1:] for k in lf.pc if isinstance(k, str) and k.startswith("?"))
         where = ua.loc(lf.node.ast) if lf.node.ast is not None else ua.loc(loop)
         run.check("R4u", not unknown, "the page loop decides on the page limit and the continuation flag only", key=f"get_ui_attestation|pages|extra|{';'.join(unknown)[:60]}", where=where,
@@ -760,36 +775,7 @@ def run(run):
     gg = A.cfg(gd, DA)
     se = P.method(DA, "setup_endorsement_key")
     gs = A.cfg(se, DA)
-    for fn, gph in ((gd, gg), (se, gs)):
-        Lx = Layout(lambda e, fn=fn: try_fold(P, e, fn, DA))
-        for r in [n for n in A.own_nodes(fn) if isinstance(n, ast.Return) and isinstance(n.value, ast.Dict)]:
-            d = {k.value: v for k, v in zip(r.value.keys, r.value.values)}
-            for rn in gph.nodes_of(r):
-                sdv = {Lx.canon(x) for x in PV.expand_consistent(fn, DA, ast.Name(id="signed_data", ctx=ast.Load()), rn, stop=("response",))}
-                if fn is gd:
-                    ok = len(sdv) == 1 and re.fullmatch(r"u8\(2\) \| bytes\(LOOP\(response\)\[1:1 \+ .*\]\) \| bytes\(LOOP\(response\)\[1:1 \+ .*\]\)|"
-                                                        r"u8\(2\) \| bytes\(.*\) \| bytes\(.*\)", next(iter(sdv))) is not None
-                    # structural: signed_data = bytes([ROLE.DEVICE]) + cert_header + dev_key_pub
-                    sd = defs_of(A, fn, "signed_data")
-                    ok = len(sd) == 1 and norm(sd[0].value) == "bytes([self.ROLE.DEVICE]) + cert_header + dev_key_pub"
-                    run.check("R2", ok, "device signed data = role | header | key", key="get_device_key|signed-data", where=fn.loc(),
-                              message=f"get_device_key reconstructs the signed data as `{norm(sd[0].value) if sd else None}`: the device key "
-                                      "would not be the last 65 bytes the `device` extractor takes")
-                    run.check("R2", norm(d.get("message")) == "signed_data.hex()" and norm(d.get("signature")) == "signature.hex()"
-                              and norm(d.get("pubkey")) == "dev_key_pub.hex()", "device key info fields", key="get_device_key|fields",
-                              where=fn.loc(r), message=f"get_device_key returns {dict((k, norm(v)) for k, v in d.items())}")
-                else:
-                    sd = defs_of(A, fn, "signed_data")
-                    kd = defs_of(A, fn, "endorsement_key_pub")
-                    sg = defs_of(A, fn, "signature")
-                    ok = len(sd) == 1 and norm(sd[0].value) == "bytes([self.ROLE.ENDORSEMENT]) + endorsement_key_pub" \
-                        and len(kd) == 1 and norm(kd[0].value) == "bytes(response[:65])" and len(sg) == 1 and norm(sg[0].value) == "bytes(response[65:])"
-                    run.check("R2", ok, "endorsement signed data = role | key(65), signature = rest", key="setup_endorsement_key|signed-data",
-                              where=fn.loc(), message="setup_endorsement_key no longer builds role | response[:65] with signature response[65:]: "
-                              "the `attestation` extractor b[1:] would not select the attestation key")
-                    run.check("R2", norm(d.get("message")) == "signed_data.hex()" and norm(d.get("signature")) == "signature.hex()",
-                              "endorsement info fields", key="setup_endorsement_key|fields", where=fn.loc(r),
-                              message=f"setup_endorsement_key returns {dict((k, norm(v)) for k, v in d.items())}")
+    # (which bytes of the answers become message / pubkey / signature: rule R2t)
     _endorsement_parse(run, PV, DA, gd, gg, se, gs)
     _envelope_walk(run)
     roles = P.enum_members(P.cls("admin.dongle_admin._Role"))
@@ -989,52 +975,7 @@ def run(run):
     gu = A.cfg(ua, D)
     run.check("R4", P.class_const(D, "MAX_PAGES_UI_ATT_MESSAGE") == 4, "MAX_PAGES_UI_ATT_MESSAGE == 4", key="MAX_PAGES_UI_ATT_MESSAGE",
               where="middleware/ledger/hsm2dongle.py", message="MAX_PAGES_UI_ATT_MESSAGE changed")
-    page_sends = []
-    for c, cmd in send_sites(run, ua):
-        for cn in gu.nodes_of(c):
-            lay = {Layout(lambda e: try_fold(P, e, ua, D)).canon(x) for x in PV.expand_consistent(ua, D, c.args[1], cn, stop=("page",))}
-            if lay == {"u8(2) | u8(page)"}:
-                page_sends.append(cn)
-    run.check("R4", len(page_sends) == 1, "one page request site: OP_GET_MSG | page", key="get_ui_attestation|page-send", where=ua.loc(),
-              message=f"{len(page_sends)} page request sites")
-    limit_raises = [x for n in A.own_nodes(ua) if isinstance(n, ast.Raise) for x in gu.nodes_of(n)]
-    limit_conds = [n for n in gu.nodes if n.kind == "cond" and "MAX_PAGES_UI_ATT_MESSAGE" in norm(n.ast)]
-    run.check("R4", len(limit_conds) == 1 and norm(limit_conds[0].ast) == "page == self.MAX_PAGES_UI_ATT_MESSAGE", "limit test is page == MAX",
-              key="get_ui_attestation|limit-test", where=ua.loc(), message=f"page limit test: {[norm(c.ast) for c in limit_conds]}")
-    # "more pages" edges: outcome edges of conditions that depend on the page answer's continuation byte
-    more_edges = set()
-    for n in gu.nodes:
-        if n.kind == "cond":
-            ex = {_strip(x) for x in PV.expand_consistent(ua, D, n.ast, n, stop=("page",))}
-            if any("[self.OFF.DATA]" in e and "OP_GET_MSG" in e for e in ex):
-                for e_ in gu.nodes:
-                    if e_.kind in ("T", "F") and e_.cond is n:
-                        # the edge that stays in the loop
-                        back = any(ps in gu.reachable(e_, edge_ok=lambda a, b: not gu.is_exc_edge(a, b)) for ps in page_sends)
-                        if back:
-                            more_edges.add(e_)
-    run.check("R4", bool(more_edges), "loop continues on the answer's continuation byte", key="get_ui_attestation|more-edge", where=ua.loc(),
-              message="the page loop does not continue based on the answer's continuation byte")
-    for ps in page_sends:
-        for lr in limit_raises:
-            p = gu.witness_path(ps, lr, avoid=more_edges, edge_ok=lambda a, b: not gu.is_exc_edge(a, b))
-            run.check("R4", p is None, "the page limit only fires when one more page is needed", key="get_ui_attestation|limit-after-last-page",
-                      where=ua.loc(), message="after reading a page the page-limit error can be raised without the device having asked "
-                      "for a further page: a UI attestation message of exactly MAX pages is rejected although it was read completely",
-                      witness=gu.describe_path(p) if p else None)
-    for r in [n for n in A.own_nodes(ua) if isinstance(n, ast.Return)]:
-        d = {k.value: norm(v) for k, v in zip(r.value.keys, r.value.values)} if isinstance(r.value, ast.Dict) else {}
-        run.check("R4", d == {"app_hash": "ui_hash.hex()", "message": "message.hex()", "signature": "attestation.hex()"},
-                  "UI attestation result fields", key="get_ui_attestation|result", where=ua.loc(r), message=f"get_ui_attestation returns {d}")
-    uh = defs_of(A, ua, "ui_hash")
-    at = defs_of(A, ua, "attestation")
-    run.check("R4", len(uh) == 1 and "OP_APP_HASH" in norm(uh[0].value) and norm(uh[0].value).endswith("[self.OFF.DATA:]")
-              and len(at) == 1 and "OP_UI_ATT.OP_GET]" in norm(at[0].value).replace("self.OP.UI_ATT.OP_GET]", "OP_UI_ATT.OP_GET]")
-              and norm(at[0].value).endswith("[self.OFF.DATA:]"), "app hash and signature are the data fields of their answers",
-              key="get_ui_attestation|sources", where=ua.loc(), message="ui_hash / attestation sources changed")
-    md = [d for d in PV.defs(ua, D).get("message", []) if d.kind == "aug"]
-    run.check("R4", len(md) == 1 and norm(md[0].node.value) == "response[self.OFF.DATA + 1:]", "message accumulates each page's data after the flag byte",
-              key="get_ui_attestation|page-data", where=ua.loc(), message="the page data appended is not response[DATA+1:]")
+    # (requests, page loop and result of get_ui_attestation: rule R4u)
     _ui_pages(run, PV, D, ua, gu, uo)
     # powhsm attestation result fields
     pr = P.method(PA, "run")
